@@ -6,6 +6,7 @@
   the images of the original parents; pruned commit ↦ first parent's image) is
   Frrs/Props/C02Graph.lean over the command-level model.
 -/
+import Frrs.Proofs.Monotone
 import Frrs.Commit
 namespace Frrs.C02
 open Frrs
@@ -201,5 +202,27 @@ example : (finalizeParents (fun m => m == 1 || m == 2) [(3, 1)]
 example : (finalizeParents (fun m => m == 2) []
     [{ raw := b!"from :1\n", mark := some 1, isMerge := false },
      { raw := b!"merge :2\n", mark := some 2, isMerge := true }]).lines = [[], b!"from :2\n"] := by decide +kernel
+
+/-! ### the alias table only ever points at commits the importer has (for every input, option set and fuel) -/
+
+/-- every `alias` the filter has emitted maps a pruned commit's mark to a mark that was emitted as a commit -/
+def AliasInv (s : FState) : Prop := ∀ p ∈ s.alias, p.2 ∈ s.emitted
+
+theorem alias_inv_init : AliasInv {} := by intro p hp; simp at hp
+
+/-- **one iteration of the main loop preserves it** — so the importer is never handed an alias to a mark it does not know,
+    and a child of a pruned commit is re-parented onto a commit that exists -/
+theorem alias_inv_step (o : FOpts) (s s' : FState) (line inp inp' : Bytes) (fuel : Nat) (h : AliasInv s)
+    (hs : step o s line inp fuel = .cont s' inp') : AliasInv s' := by
+  have := step_ext o s line inp fuel
+  rw [hs] at this
+  exact this.ainv h
+
+/-- emitted marks are never forgotten -/
+theorem emitted_monotone (o : FOpts) (s s' : FState) (line inp inp' : Bytes) (fuel : Nat)
+    (hs : step o s line inp fuel = .cont s' inp') (m : Nat) (hm : m ∈ s.emitted) : m ∈ s'.emitted := by
+  have := step_ext o s line inp fuel
+  rw [hs] at this
+  exact this.emitted m hm
 
 end Frrs.C02
